@@ -14,7 +14,7 @@
 EXTENDS Integers, Sequences, FiniteSets, TLC, Json, IOUtils
 
 Paths == <<"call", "batch", "notify", "response", "errresponse", "pushnotify", "callback", "cbreply", "bridge">>
-MClass == <<"ascii", "quote", "backslash", "lf", "tab", "nul", "del", "html", "u2028", "latin", "astral", "rpcdot", "space">>
+MClass == <<"ascii", "quote", "backslash", "lf", "tab", "nul", "del", "ctl", "html", "u2028", "latin", "astral", "rpcdot", "space">>
 VClass == <<"absent", "null", "emptyobj", "emptyarr", "nested", "bignum", "rawws", "ctrlstr", "unicode", "map", "slice", "htmlstr">>
 IdClass == <<"int", "neg", "exp", "frac", "str", "emptystr", "quotestr", "unistr", "bigint">>
 
